@@ -4,6 +4,7 @@ import (
 	"github.com/iancoleman/strcase"
 	"regexp"
 	"strings"
+	"unicode"
 )
 
 type ConceptSegmenter struct {
@@ -23,7 +24,7 @@ func SegmentCamelcase(methodsName []string) map[string]int {
 				strMap[domainName] = strMap[domainName] + 1
 			}
 		} else {
-			delimited := strcase.ToDelimited(name, '.')
+			delimited := strcase.ToDelimited(markNonASCIIWordBoundaries(name), '.')
 			split := strings.Split(delimited, ".")
 			for _, word := range split {
 				if FilterString(word) == "" {
@@ -39,6 +40,29 @@ func SegmentCamelcase(methodsName []string) map[string]int {
 	}
 
 	return strMap
+}
+
+// markNonASCIIWordBoundaries writes a `_` (a word separator for strcase) at the camel-case
+// word boundaries that strcase cannot see: it tests single bytes for A-Z / a-z, so it finds no
+// boundary next to a letter outside ASCII (loadÜbersicht, caféMenu, parseXMLÉtat).
+func markNonASCIIWordBoundaries(name string) string {
+	runes := []rune(name)
+	var b strings.Builder
+	for i, r := range runes {
+		if i > 0 && unicode.IsUpper(r) {
+			prev := runes[i-1]
+			nextIsLower := i+1 < len(runes) && unicode.IsLower(runes[i+1])
+			switch {
+			case unicode.IsLower(prev) && (prev > unicode.MaxASCII || r > unicode.MaxASCII):
+				b.WriteRune('_')
+			case unicode.IsUpper(prev) && nextIsLower && (r > unicode.MaxASCII || runes[i+1] > unicode.MaxASCII):
+				// the last capital of a run of capitals begins the next word: XMLÉtat -> XML, État
+				b.WriteRune('_')
+			}
+		}
+		b.WriteRune(r)
+	}
+	return b.String()
 }
 
 func FilterString(str string) string {
